@@ -83,6 +83,7 @@ type procSpec struct {
 	Exit     int    `json:"exit,omitempty"`
 	Text     string `json:"text,omitempty"`
 	FinalMs  int    `json:"final_ms,omitempty"`
+	Fork     bool   `json:"fork,omitempty"` // the shell forks a worker child (pipeline / compound command)
 }
 
 type sysPlan struct {
@@ -105,6 +106,7 @@ type sysPlan struct {
 	Multi    int        `json:"multi"` // 0 none, -1 unlimited, n limit
 	Header   int        `json:"header_lines"`
 	Tail     int        `json:"tail"`
+	Read0    bool       `json:"read0"`
 }
 
 // ---------------------------------------------------------------------------
@@ -155,6 +157,9 @@ type sysRun struct {
 	auditAt  []string
 	tmpDir   string
 	oldTmp   string
+
+	tolerateBadOpts bool
+	sigKilled       bool
 }
 
 func (p *sysPlan) baseArgs() []string {
@@ -205,11 +210,14 @@ func (p *sysPlan) baseArgs() []string {
 	if p.Tail > 0 {
 		a = append(a, "--tail", strconv.Itoa(p.Tail))
 	}
+	if p.Read0 {
+		a = append(a, "--read0")
+	}
 	return append(a, p.Args...)
 }
 
 func genScript(lines []string, ps procSpec) simos.Script {
-	sc := simos.Script{StartErr: ps.StartErr, Endless: ps.Endless, ExitCode: ps.Exit, FinalMs: ps.FinalMs}
+	sc := simos.Script{StartErr: ps.StartErr, Endless: ps.Endless, ExitCode: ps.Exit, FinalMs: ps.FinalMs, Fork: ps.Fork}
 	i := 0
 	k := 0
 	for i < len(lines) {
@@ -264,7 +272,7 @@ func (r *sysRun) defaultBehave(p *simos.Proc) simos.Script {
 		ps = r.plan.Procs[r.genSeq[class]%len(r.plan.Procs)]
 	}
 	r.genSeq[class]++
-	sc := simos.Script{StartErr: ps.StartErr, Endless: ps.Endless, ExitCode: ps.Exit, FinalMs: ps.FinalMs}
+	sc := simos.Script{StartErr: ps.StartErr, Endless: ps.Endless, ExitCode: ps.Exit, FinalMs: ps.FinalMs, Fork: ps.Fork}
 	text := ps.Text
 	d := 0
 	if len(ps.DelaysMs) > 0 {
@@ -353,7 +361,11 @@ func (r *sysRun) start() bool {
 	r.lines = genLines(plan.Lines)
 	var data []byte
 	if !plan.NoStdin && len(r.lines) > 0 {
-		data = []byte(strings.Join(r.lines, "\n") + "\n")
+		sep := "\n"
+		if plan.Read0 {
+			sep = "\x00"
+		}
+		data = []byte(strings.Join(r.lines, sep) + sep)
 	}
 	r.in = newSimStdin(c, data, plan.Reads, plan.GapsMs, -1)
 	r.in.holdOpen = plan.HoldOpen
@@ -361,6 +373,10 @@ func (r *sysRun) start() bool {
 	args := plan.baseArgs()
 	opts, err := ParseOptions(false, args)
 	if err != nil {
+		if r.tolerateBadOpts {
+			r.sim.Stop()
+			return false
+		}
 		panic("zsim: INFRA option parsing failed: " + err.Error() + " " + fmt.Sprint(args))
 	}
 	r.opts = opts
@@ -601,21 +617,32 @@ func (r *sysRun) drive() bool {
 func (r *sysRun) finish() {
 	c := r.c
 	if !r.done && r.became == "" {
-		// responsiveness probe: ctrl-c must end the session. The key decoder may legitimately swallow one
-		// ctrl-c that arrives in the middle of a garbled escape sequence, so it is pressed up to three times.
+		// responsiveness probe: ctrl-c must end the session. Every malformed escape sequence still queued in the
+		// key decoder takes one more key press to get past (its "second chance" read blocks), so ctrl-c is
+		// pressed up to 72 times before fzf is declared unresponsive.
 		var out zsim.Outcome
-		for try := 0; try < 3 && !r.done; try++ {
-			r.tty.Feed([]byte{3})
+		for try := 0; try < 12 && !r.done && r.became == ""; try++ {
+			if !r.tty.Raw {
+				// the tty is in cooked mode (fzf has not taken over the terminal, e.g. it still waits for the
+				// input to end under --sync/--select-1): ctrl-c is turned into SIGINT by the line discipline
+				if !r.os.Signal(os.Interrupt) {
+					// no handler installed: the default action terminates the process; nothing of fzf's runs
+					r.c.count("exit.default_sigint", 1)
+					r.sigKilled = true
+					break
+				}
+			}
+			r.tty.Feed([]byte{3, 3, 3, 3, 3, 3})
 			out = r.sim.Run(2*time.Second, 2000000, r.sim.Now()+20*time.Second)
 			if out == zsim.OutOfSteps {
 				break
 			}
 		}
-		if !r.done {
+		if !r.done && !r.sigKilled && r.became == "" {
 			if out == zsim.OutOfSteps {
 				c.count("inconclusive", 1)
 			} else {
-				c.violate("sys.hang", "fzf did not exit after ctrl-c was pressed three times over 60 simulated seconds (scheduler: %v); parked=%v\n%s", out, r.sim.Parked(), blockedStacks())
+				c.violate("sys.hang", "fzf did not exit after ctrl-c was pressed 72 times over several simulated minutes (scheduler: %v); parked=%v\n%s", out, r.sim.Parked(), blockedStacks())
 			}
 		}
 	}
@@ -694,8 +721,19 @@ func blockedStacks() string {
 	buf := make([]byte, 1<<20)
 	n := runtime.Stack(buf, true)
 	var out []string
-	for _, g := range strings.Split(string(buf[:n]), "\n\n") {
-		if !strings.Contains(g, "synctest bubble") {
+	gs := strings.Split(string(buf[:n]), "\n\n")
+	// the first entry is the calling goroutine: keep only goroutines of its bubble
+	bubble := ""
+	if len(gs) > 0 {
+		if k := strings.Index(gs[0], "synctest bubble "); k >= 0 {
+			bubble = gs[0][k:]
+			if e := strings.IndexAny(bubble, "]\n"); e >= 0 {
+				bubble = bubble[:e]
+			}
+		}
+	}
+	for _, g := range gs {
+		if !strings.Contains(g, "synctest bubble") || bubble != "" && !strings.Contains(strings.SplitN(g, "\n", 2)[0], bubble+"]") {
 			continue
 		}
 		lines := strings.Split(g, "\n")
